@@ -583,7 +583,8 @@ func (w *W) extractCex(model map[string]uint64, nodes map[int]uint64) *Cex {
 				c.Nondets[v.name] = fmt.Sprintf("s#%d", val)
 			}
 		}
-		c.NondetSeq = append(c.NondetSeq, NondetVal{Name: v.name, Thread: tid, Kind: kind, Value: c.Nondets[v.name], Pos: w.nondetPos[v.name]})
+		_ = tid
+		_ = kind
 	}
 	for k, v := range model {
 		if strings.HasPrefix(k, "clk_") || strings.HasPrefix(k, "pool_") || strings.HasPrefix(k, "sel_") || k == "nd_numcpu" {
@@ -592,6 +593,17 @@ func (w *W) extractCex(model map[string]uint64, nodes map[int]uint64) *Cex {
 	}
 	last := -1
 	for _, e := range w.trace {
+		if e.nondet != nil {
+			if ev.eval(e.exec) != 0 {
+				nm := w.ndName(e.nondet)
+				kind := ""
+				if parts := strings.Split(nm, "_"); len(parts) >= 3 {
+					kind = parts[1]
+				}
+				c.NondetSeq = append(c.NondetSeq, NondetVal{Name: nm, Thread: e.thread, Kind: kind, Value: c.Nondets[nm], Pos: e.pos})
+			}
+			continue
+		}
 		if e.thread < len(w.threads) && ev.eval(e.exec) != 0 {
 			ts := TraceStep{Thread: e.thread, Round: e.round, Kind: e.kind, Pos: e.pos, Fn: e.fn}
 			for _, sp := range e.spawn {
